@@ -58,6 +58,13 @@ func (obj Fixnum) Simplify() any {
 	return int64(obj)
 }
 
+// int64EqualsFloat returns true if the float has exactly the value of the
+// integer. The integer is not converted to a float since that rounds an
+// integer with more bits than the mantissa of the float.
+func int64EqualsFloat(i int64, f float64) bool {
+	return -9223372036854775808.0 <= f && f < 9223372036854775808.0 && float64(int64(f)) == f && int64(f) == i
+}
+
 // Equal returns true if this Object and the other are equal in value.
 func (obj Fixnum) Equal(other Object) (eq bool) {
 	switch to := other.(type) {
@@ -69,11 +76,11 @@ func (obj Fixnum) Equal(other Object) (eq bool) {
 	case Integer:
 		eq = to.IsInt64() && int64(obj) == to.Int64()
 	case SingleFloat:
-		eq = SingleFloat(obj) == to
+		eq = int64EqualsFloat(int64(obj), float64(to))
 	case DoubleFloat:
-		eq = DoubleFloat(obj) == to
+		eq = int64EqualsFloat(int64(obj), float64(to))
 	case *LongFloat:
-		eq = big.NewFloat(float64(obj)).Cmp((*big.Float)(to)) == 0
+		eq = new(big.Float).SetInt64(int64(obj)).Cmp((*big.Float)(to)) == 0
 	case *Ratio:
 		rat := (*big.Rat)(to)
 		eq = rat.IsInt() && rat.Num().IsInt64() && rat.Num().Int64() == int64(obj)
